@@ -122,13 +122,16 @@ func c42NewWorld(scheme *runtime.Scheme, cluster *kafscalev1alpha1.KafscaleClust
 		r: &ClusterReconciler{Client: c, Scheme: scheme, Publisher: NewSnapshotPublisher(c)}}
 }
 
-func (w *c42World) reconcile(ctx context.Context) error {
+func (w *c42World) reconcile(ctx context.Context) error { return w.reconcileKey(ctx, w.key) }
+
+// reconcileKey reconciles one of the cluster resources living in this fake API server.
+func (w *c42World) reconcileKey(ctx context.Context, key types.NamespacedName) error {
 	if w.mode != "managed" {
-		_, err := w.r.Reconcile(ctx, reconcile.Request{NamespacedName: w.key})
+		_, err := w.r.Reconcile(ctx, reconcile.Request{NamespacedName: key})
 		return err
 	}
 	var cluster kafscalev1alpha1.KafscaleCluster
-	if err := w.c.Get(ctx, w.key, &cluster); err != nil {
+	if err := w.c.Get(ctx, key, &cluster); err != nil {
 		return err
 	}
 	res, err := EnsureEtcd(ctx, w.c, w.scheme, &cluster)
@@ -161,6 +164,205 @@ func (w *c42World) reconcile(ctx context.Context) error {
 	return w.r.updateStatus(ctx, &cluster, metav1.ConditionTrue, "Ready", "Reconciled")
 }
 
+// c42Sticky holds the first violation detected in this process. A violation caused by state
+// that leaks between reconciles through package-level variables of the operator cannot be
+// reproduced by re-running the same case in the same process (the leak has already happened),
+// so once detected it is reported by every following evaluation from the same call site:
+// rapid then reports a failure instead of "flaky".
+var c42Sticky string
+
+func c42BelongsTo(o client.Object, cl *kafscalev1alpha1.KafscaleCluster) bool {
+	if o.GetNamespace() != cl.Namespace {
+		return false
+	}
+	if kc, ok := o.(*kafscalev1alpha1.KafscaleCluster); ok {
+		return kc.Name == cl.Name
+	}
+	for _, ref := range o.GetOwnerReferences() {
+		if ref.Kind == "KafscaleCluster" && ref.Name == cl.Name {
+			return true
+		}
+	}
+	return false
+}
+
+// c42OneCase generates and runs one case; it returns a violation message or "".
+func c42OneCase(t *rapid.T, st *vfkit.Stats, ctx context.Context, scheme *runtime.Scheme, endpoints []string) string {
+	cluster := c42Cluster(t, c42Opts{allowUnsetReplicas: true})
+	mode := rapid.SampledFrom([]string{"external", "external", "external-env", "managed", "managed", "managed"}).Draw(t, "mode")
+	env := map[string]string{}
+	for _, k := range c42EnvKeys() {
+		env[k] = rapid.SampledFrom(c42EnvChoices[k]).Draw(t, k)
+	}
+	env[operatorEtcdSnapshotSkipPreflightEnv] = "true"
+	env[operatorEtcdSilenceLogsEnv] = "true"
+	// other clusters managed by the same operator process, reconciled in between
+	var others []*kafscalev1alpha1.KafscaleCluster
+	for i, n := 0, rapid.SampledFrom([]int{0, 1, 1, 2, 2}).Draw(t, "otherClusters"); i < n; i++ {
+		o := c42Cluster(t, c42Opts{})
+		if rapid.Bool().Draw(t, "sameNamespace") {
+			o.Namespace = cluster.Namespace
+		}
+		for clash := true; clash; {
+			clash = o.Namespace == cluster.Namespace && o.Name == cluster.Name
+			for _, p := range others {
+				clash = clash || (o.Namespace == p.Namespace && o.Name == p.Name)
+			}
+			if clash {
+				o.Name += fmt.Sprintf("-o%d", i)
+			}
+		}
+		others = append(others, o)
+	}
+	all := append([]*kafscalev1alpha1.KafscaleCluster{cluster}, others...)
+	switch mode {
+	case "external":
+		for _, cl := range all {
+			cl.Spec.Etcd.Endpoints = append([]string{" " + endpoints[0] + " "}, endpoints[1:]...)
+		}
+		if rapid.Bool().Draw(t, "dupEndpoint") {
+			cluster.Spec.Etcd.Endpoints = append(cluster.Spec.Etcd.Endpoints, endpoints[0], "")
+		}
+	case "external-env":
+		env[operatorEtcdEndpointsEnv] = strings.Join(endpoints, ",")
+	}
+	var extras []client.Object
+	for _, tp := range c42Topics(t, cluster) {
+		tp := tp
+		extras = append(extras, &tp)
+	}
+	if rapid.Bool().Draw(t, "secret") {
+		extras = append(extras, &corev1.Secret{ObjectMeta: metav1.ObjectMeta{Name: "creds", Namespace: cluster.Namespace},
+			Data: map[string][]byte{"AWS_ACCESS_KEY_ID": []byte("ak"), "AWS_SECRET_ACCESS_KEY": []byte("sk")}})
+	}
+	if rapid.IntRange(0, 3).Draw(t, "legacyDeployment") == 2 {
+		extras = append(extras, &appsv1.Deployment{ObjectMeta: metav1.ObjectMeta{Name: cluster.Name + "-broker", Namespace: cluster.Namespace}})
+	}
+	adopted := rapid.IntRange(0, 4).Draw(t, "preexistingService") == 3
+	if adopted {
+		// an object of a generated name already exists (created by hand / an older operator version)
+		extras = append(extras, &corev1.Service{ObjectMeta: metav1.ObjectMeta{Name: cluster.Name + "-broker", Namespace: cluster.Namespace,
+			Labels: map[string]string{"owner": "someone"}, Annotations: map[string]string{"old": "annotation"}},
+			Spec: corev1.ServiceSpec{Ports: []corev1.ServicePort{{Name: "legacy", Port: 1234, TargetPort: intstr.FromInt(1234)}}, Selector: map[string]string{"app": "old"}}})
+	}
+	restore := c42ApplyEnv(env)
+	defer restore()
+	st.Eval()
+	st.Class("mode-" + mode)
+	st.Class(fmt.Sprintf("other-clusters-%d", len(others)))
+	if cluster.Spec.LfsProxy.Enabled {
+		st.Class("lfs-proxy-enabled")
+	}
+	if adopted {
+		st.Class("preexisting-object-adopted")
+	}
+	describe := func() string {
+		var sb strings.Builder
+		fmt.Fprintf(&sb, "cluster %s/%s (mode %s) spec: %s\nenv: %v", cluster.Namespace, cluster.Name, mode, c42JSON(cluster.Spec), env)
+		for _, o := range others {
+			fmt.Fprintf(&sb, "\nother cluster %s/%s spec: %s", o.Namespace, o.Name, c42JSON(o.Spec))
+		}
+		return sb.String()
+	}
+
+	withOthers := append([]client.Object{}, extras...)
+	for _, o := range others {
+		withOthers = append(withOthers, o)
+	}
+	world := c42NewWorld(scheme, cluster, withOthers, mode)
+	// everything that is not another cluster's resource or owned by another cluster
+	mine := func(o client.Object) bool {
+		for _, other := range others {
+			if c42BelongsTo(o, other) {
+				return false
+			}
+		}
+		return true
+	}
+	var dumps []c42Dump
+	for i := 0; i < 3; i++ {
+		cctx, cancel := context.WithTimeout(ctx, 60*time.Second)
+		err := world.reconcile(cctx)
+		cancel()
+		if err != nil {
+			st.Class("reconcile-returned-error")
+			st.Note("last_reconcile_error", err.Error())
+		}
+		d, derr := c42DumpAll(ctx, world.c, scheme)
+		if derr != nil {
+			t.Fatalf("VF-INCONCLUSIVE: dump: %v", derr)
+		}
+		dumps = append(dumps, d)
+		// between the passes the operator reconciles the other clusters
+		if i < 2 && len(others) > 0 {
+			o := others[i%len(others)]
+			cctx, cancel := context.WithTimeout(ctx, 60*time.Second)
+			if err := world.reconcileKey(cctx, types.NamespacedName{Namespace: o.Namespace, Name: o.Name}); err != nil {
+				st.Class("reconcile-returned-error")
+			}
+			cancel()
+		}
+	}
+	owned := 0
+	kinds := map[string]bool{}
+	for k, o := range dumps[0] {
+		if c42Owned(o) && c42BelongsTo(o, cluster) {
+			owned++
+			kinds[strings.Split(k, "/")[len(strings.Split(k, "/"))-3]] = true
+		}
+	}
+	if owned == 0 {
+		return fmt.Sprintf("reconcile generated no owned objects (mode %s): %d objects in the fake API server", mode, len(dumps[0]))
+	}
+	st.Class(fmt.Sprintf("generated-objects-%02d", owned))
+	between := "second reconcile of the unchanged cluster"
+	if len(others) > 0 {
+		between = "second reconcile of the unchanged cluster (another cluster was reconciled in between)"
+	}
+	if d := c42DiffDumps(dumps[0], dumps[1], mine); d != "" {
+		return fmt.Sprintf("%s changed an object: %s\n%s", between, d, describe())
+	}
+	if d := c42DiffDumps(dumps[1], dumps[2], mine); d != "" {
+		return fmt.Sprintf("third reconcile of the unchanged cluster (others reconciled in between: %d) changed an object: %s\n%s", len(others), d, describe())
+	}
+	// determinism: a fresh API server with the same objects (and no other clusters) ends in the same state
+	again := c42NewWorld(scheme, cluster, extras, mode)
+	_ = again.reconcile(ctx)
+	d2, derr := c42DumpAll(ctx, again.c, scheme)
+	if derr != nil {
+		t.Fatalf("VF-INCONCLUSIVE: dump: %v", derr)
+	}
+	if d := c42DiffDumps(dumps[0], d2, mine); d != "" {
+		return fmt.Sprintf("two fresh API servers given the same cluster resource and environment ended differently (first: %d other cluster resources present, second: none): %s\n%s", len(others), d, describe())
+	}
+	// depends only on the cluster resource and the environment: without the unrelated objects
+	// (topics, secret, legacy deployment, other clusters) the generated objects are the same
+	if !adopted {
+		bare := c42NewWorld(scheme, cluster, nil, mode)
+		_ = bare.reconcile(ctx)
+		d3, derr := c42DumpAll(ctx, bare.c, scheme)
+		if derr != nil {
+			t.Fatalf("VF-INCONCLUSIVE: dump: %v", derr)
+		}
+		ownedByMe := func(o client.Object) bool { return c42Owned(o) && c42BelongsTo(o, cluster) }
+		if d := c42DiffDumps(dumps[2], d3, ownedByMe); d != "" {
+			return fmt.Sprintf("generated objects depend on something other than the cluster resource and environment (unrelated objects removed: %d, other clusters: %d): %s\n%s", len(extras), len(others), d, describe())
+		}
+	}
+	if cluster.Spec.LfsProxy.Enabled || mode == "managed" {
+		kl := make([]string, 0, len(kinds))
+		for k := range kinds {
+			kl = append(kl, k)
+		}
+		sort.Strings(kl)
+		if st.NonTrivial(mode, c42JSON(cluster.Spec), cluster.Name, cluster.Namespace, fmt.Sprint(env), len(others)) {
+			st.Sample(map[string]any{"mode": mode, "name": cluster.Namespace + "/" + cluster.Name, "generated_kinds": kl, "generated_objects": owned,
+				"lfs": cluster.Spec.LfsProxy.Enabled, "other_clusters": len(others)})
+		}
+	}
+	return ""
+}
+
 func TestVF_C42_Idempotent(t *testing.T) {
 	st := vfkit.NewStats("C42", "idempotent")
 	defer st.Flush()
@@ -177,119 +379,15 @@ func TestVF_C42_Idempotent(t *testing.T) {
 	ctx := context.Background()
 
 	rapid.Check(t, func(t *rapid.T) {
-		cluster := c42Cluster(t, c42Opts{allowUnsetReplicas: true})
-		mode := rapid.SampledFrom([]string{"external", "external", "external-env", "managed", "managed", "managed"}).Draw(t, "mode")
-		env := map[string]string{}
-		for _, k := range c42EnvKeys() {
-			env[k] = rapid.SampledFrom(c42EnvChoices[k]).Draw(t, k)
-		}
-		env[operatorEtcdSnapshotSkipPreflightEnv] = "true"
-		env[operatorEtcdSilenceLogsEnv] = "true"
-		switch mode {
-		case "external":
-			cluster.Spec.Etcd.Endpoints = append([]string{" " + endpoints[0] + " "}, endpoints[1:]...)
-			if rapid.Bool().Draw(t, "dupEndpoint") {
-				cluster.Spec.Etcd.Endpoints = append(cluster.Spec.Etcd.Endpoints, endpoints[0], "")
-			}
-		case "external-env":
-			env[operatorEtcdEndpointsEnv] = strings.Join(endpoints, ",")
-		}
-		var extras []client.Object
-		for _, tp := range c42Topics(t, cluster) {
-			tp := tp
-			extras = append(extras, &tp)
-		}
-		if rapid.Bool().Draw(t, "secret") {
-			extras = append(extras, &corev1.Secret{ObjectMeta: metav1.ObjectMeta{Name: "creds", Namespace: cluster.Namespace},
-				Data: map[string][]byte{"AWS_ACCESS_KEY_ID": []byte("ak"), "AWS_SECRET_ACCESS_KEY": []byte("sk")}})
-		}
-		if rapid.IntRange(0, 3).Draw(t, "legacyDeployment") == 2 {
-			extras = append(extras, &appsv1.Deployment{ObjectMeta: metav1.ObjectMeta{Name: cluster.Name + "-broker", Namespace: cluster.Namespace}})
-		}
-		adopted := rapid.IntRange(0, 4).Draw(t, "preexistingService") == 3
-		if adopted {
-			// an object of a generated name already exists (created by hand / an older operator version)
-			extras = append(extras, &corev1.Service{ObjectMeta: metav1.ObjectMeta{Name: cluster.Name + "-broker", Namespace: cluster.Namespace,
-				Labels: map[string]string{"owner": "someone"}, Annotations: map[string]string{"old": "annotation"}},
-				Spec: corev1.ServiceSpec{Ports: []corev1.ServicePort{{Name: "legacy", Port: 1234, TargetPort: intstr.FromInt(1234)}}, Selector: map[string]string{"app": "old"}}})
-		}
-		restore := c42ApplyEnv(env)
-		defer restore()
-		st.Eval()
-		st.Class("mode-" + mode)
-		if cluster.Spec.LfsProxy.Enabled {
-			st.Class("lfs-proxy-enabled")
-		}
-		if adopted {
-			st.Class("preexisting-object-adopted")
-		}
-
-		world := c42NewWorld(scheme, cluster, extras, mode)
-		var dumps []c42Dump
-		for i := 0; i < 3; i++ {
-			cctx, cancel := context.WithTimeout(ctx, 60*time.Second)
-			err := world.reconcile(cctx)
-			cancel()
-			if err != nil {
-				st.Class("reconcile-returned-error")
-				st.Note("last_reconcile_error", err.Error())
-			}
-			d, derr := c42DumpAll(ctx, world.c, scheme)
-			if derr != nil {
-				t.Fatalf("VF-INCONCLUSIVE: dump: %v", derr)
-			}
-			dumps = append(dumps, d)
-		}
-		owned := 0
-		kinds := map[string]bool{}
-		for k, o := range dumps[0] {
-			if c42Owned(o) {
-				owned++
-				kinds[strings.Split(k, "/")[len(strings.Split(k, "/"))-3]] = true
+		msg := c42Sticky
+		if msg == "" {
+			if msg = c42OneCase(t, st, ctx, scheme, endpoints); msg != "" {
+				fmt.Println("C42 violation detected:", msg)
+				c42Sticky = "[first detected by an earlier evaluation in this process; operator state leaking between reconciles cannot be re-triggered, so the case printed by rapid below is not the witness] " + msg
 			}
 		}
-		if owned == 0 {
-			t.Fatalf("reconcile generated no owned objects (mode %s): %d objects in the fake API server", mode, len(dumps[0]))
-		}
-		st.Class(fmt.Sprintf("generated-objects-%02d", owned))
-		if d := c42DiffDumps(dumps[0], dumps[1], nil); d != "" {
-			t.Fatalf("second reconcile of the unchanged cluster %s/%s (mode %s) changed an object: %s\nspec: %s\nenv: %v", cluster.Namespace, cluster.Name, mode, d, c42JSON(cluster.Spec), env)
-		}
-		if d := c42DiffDumps(dumps[1], dumps[2], nil); d != "" {
-			t.Fatalf("third reconcile of the unchanged cluster %s/%s (mode %s) changed an object: %s\nspec: %s\nenv: %v", cluster.Namespace, cluster.Name, mode, d, c42JSON(cluster.Spec), env)
-		}
-		// determinism: a fresh API server with the same objects ends in the same state
-		again := c42NewWorld(scheme, cluster, extras, mode)
-		_ = again.reconcile(ctx)
-		d2, derr := c42DumpAll(ctx, again.c, scheme)
-		if derr != nil {
-			t.Fatalf("VF-INCONCLUSIVE: dump: %v", derr)
-		}
-		if d := c42DiffDumps(dumps[0], d2, nil); d != "" {
-			t.Fatalf("two fresh API servers given the same cluster resource and environment (mode %s) ended differently: %s\nspec: %s\nenv: %v", mode, d, c42JSON(cluster.Spec), env)
-		}
-		// depends only on the cluster resource and the environment: without the unrelated objects
-		// (topics, secret, legacy deployment) the generated objects are the same
-		if !adopted {
-			bare := c42NewWorld(scheme, cluster, nil, mode)
-			_ = bare.reconcile(ctx)
-			d3, derr := c42DumpAll(ctx, bare.c, scheme)
-			if derr != nil {
-				t.Fatalf("VF-INCONCLUSIVE: dump: %v", derr)
-			}
-			if d := c42DiffDumps(dumps[0], d3, c42Owned); d != "" {
-				t.Fatalf("generated objects depend on something other than the cluster resource and environment (mode %s; unrelated objects removed: %d): %s\nspec: %s\nenv: %v", mode, len(extras), d, c42JSON(cluster.Spec), env)
-			}
-		}
-		if cluster.Spec.LfsProxy.Enabled || mode == "managed" {
-			kl := make([]string, 0, len(kinds))
-			for k := range kinds {
-				kl = append(kl, k)
-			}
-			sort.Strings(kl)
-			if st.NonTrivial(mode, c42JSON(cluster.Spec), cluster.Name, cluster.Namespace, fmt.Sprint(env)) {
-				st.Sample(map[string]any{"mode": mode, "name": cluster.Namespace + "/" + cluster.Name, "generated_kinds": kl, "generated_objects": owned, "lfs": cluster.Spec.LfsProxy.Enabled})
-			}
+		if msg != "" {
+			t.Fatalf("%s", msg) // single call site: rapid compares tracebacks to tell a failure from a flaky test
 		}
 	})
 }
